@@ -179,6 +179,7 @@ CHECKS = {
         "tests": [
             {"pkg": "leaderx", "run": "^TestC14_Sessions$", "quick": 800, "thorough": 120000},
             {"pkg": "leaderx", "run": "^TestC14_Expiry$", "quick": 64, "thorough": 1600, "shards": {"quick": 8, "thorough": 16}, "shrinktime": "20s"},
+            {"pkg": "e2ex", "run": "^TestC14_ClientSessions$", "quick": 48, "thorough": 1200, "shards": {"quick": 8, "thorough": 16}, "shrinktime": "30s"},
         ],
         "floors": {"takeover": 0.02, "leader_change": 0.15, "session_expired": {"quick": 30, "thorough": 800}},
         "rule": "rapid state machine over a real RF=1 LeaderController with its real SessionManager: CreateSession (<=3 live), "
@@ -190,7 +191,7 @@ CHECKS = {
                 "SESSION_DOES_NOT_EXIST), at a session end exactly the records the session owns at that log position "
                 "disappear and nothing else changes (full ordered dump compared with the model), live sessions and their "
                 "records survive leader changes and still accept heartbeats. Non-trivial: a takeover, a raced close, or a "
-                "close plus a leader change. Second generator (TestC14_Expiry, real timers): 1-3 sessions with the smallest accepted timeout (2 s), each with a drawn fate - never kept alive, kept alive for 0.3-1.5 s and then abandoned, or kept alive every 100-500 ms until the end - ephemeral and plain records, take-overs, optionally a leader restart into a new term after 0.2-1.2 s. Oracle: an abandoned session still has its records 0.9 s before its deadline, and 2.5 s after it the records are gone, KeepAlive fails and nothing else changed (full comparison with the model); a kept session (largest heartbeat gap measured by the harness < 1.4 s) never fails a KeepAlive and keeps its records, also across the restart. Non-trivial there: at least one session expired.",
+                "close plus a leader change. Second generator (TestC14_Expiry, real timers): 1-3 sessions with the smallest accepted timeout (2 s), each with a drawn fate - never kept alive, kept alive for 0.3-1.5 s and then abandoned, or kept alive every 100-500 ms until the end - ephemeral and plain records, take-overs, optionally a leader restart into a new term after 0.2-1.2 s. Oracle: an abandoned session still has its records 0.9 s before its deadline, and 2.5 s after it the records are gone, KeepAlive fails and nothing else changed (full comparison with the model); a kept session (largest heartbeat gap measured by the harness < 1.4 s) never fails a KeepAlive and keeps its records, also across the restart. Non-trivial there: at least one session expired. Third generator (TestC14_ClientSessions, e2ex): the real client library (oxia/sessions.go) against a real standalone server with 1-3 shards: client A (session timeout drawn from 2-6 s) creates 1-4 ephemeral records, client B plain ones, optional take-over in either direction; A stays open for its session timeout + 0.3-1.5 s, optionally with a server restart on the same address in between; then A is closed. Oracle: while A is open the store holds exactly the plain and the ephemeral records, after A.Close() exactly the plain ones (full listing through B).",
         "assumptions": ["session timeout 60 s in this test; expiry timing is not exercised here",
                         "a KeepAlive that does not return within 20 s is inconclusive"],
     },
